@@ -57,7 +57,9 @@ CLAIMED.update({
              "an oracle over the implementation's own NodeStart/RouteDecision events. WHOLE RUNS (C03_run_routes): for the routed fan gate(c) -> B | C | END with arbitrary branch functions and any routing function, under either runner and any budget >= 2, the gate runs once and first, exactly the selected branch runs once, the other never and its output is absent; instantiated with the harness's executor (C03_model_routes) and the model program itself is run against the implementation (gated_obs).",
         design_ref="DESIGN.md section 5 C03",
         note="Run level: C03_closed_gate_first (a node behind a closed-by-default gate is never scheduled before the gate has completed an execution). "
-             "The exactly-the-selected-branches corollary for acyclic graphs is checked by the oracle (exact-branches rule), not proved.",
+             "The exactly-the-selected-branches corollary for acyclic graphs is checked by the oracle, not proved: exact-branches (an unselected target never runs), "
+             "selected-runs (a target named by a gate runnable from the start does run, whatever the other gates sharing it decided) and "
+             "pass-per-decision (a loop body starts at most once per decision naming it, plus once for a default-open gate).",
         technique="Coq proof (characterisation of get_ready_nodes / stale-decision clearing) + event-stream oracle",
     ),
     "C04": dict(
@@ -90,7 +92,9 @@ CLAIMED.update({
              "decided on generated nestings (flat vs nested input spec and values).",
         design_ref="DESIGN.md section 5 C05",
         note="The run-level inlining theorem is for acyclic gate-free inner graphs, identity boundary, completed runs; the other "
-             "configurations are established per generated nesting by the oracle plus the model correspondence.",
+             "configurations are established per generated nesting by the oracle plus the model correspondence. A value bound on the inner graph and "
+             "consumed by a plain node outside it is compared with the flat graph's binding (depth 1-2, both runners); the shape where that outside "
+             "consumer has a signature default is rejected by the constructor on purpose (pinned by the repository's tests) and is not compared.",
         technique="Coq proof (GraphNode executor characterisation; inlining via uniqueness of the solution of the dataflow equations) + metamorphic oracle flat vs nested",
     ),
     "C09": dict(
@@ -138,7 +142,8 @@ CLAIMED.update({
         design_ref="DESIGN.md section 5 C08",
         note="validate_inputs is modelled for calls that supply graph inputs only (no internal overrides / bound output names: known "
              "finding territory F-g); the selection scope has an order-dependent worklist in the implementation and is modelled by its "
-             "two extremes; sufficiency for cyclic/gated graphs is acceptance + resolvability, not 'every intended node runs'.",
+             "two extremes; sufficiency for cyclic/gated graphs is acceptance + resolvability, not 'every intended node runs'. Graphs derived (bind / unbind) "
+             "from a graph that was RUN with a run-time select are checked by an oracle on their own contract.",
         technique="Coq proof (filter characterisation of compute_input_spec / validate_inputs) + differential correspondence per omission",
     ),
     "C11": dict(
@@ -201,7 +206,10 @@ CLAIMED.update({
              "self-answering handlers, falsy answers, nested) through complete pause/resume histories. WHOLE RUNS (C14_run_pauses / _resumes / _answered, C14_model_run): for the chain A -> I[interrupt] -> B(a, d) with arbitrary node functions under the asynchronous runner: a handler that does not answer pauses after A and before B (pause identity, returned state, call log); the call with the response supplied resumes (I passes it on, B runs once, the run completes); values and call log equal those of the run whose handler answers; the model program is run against the implementation (chain_obs).",
         design_ref="DESIGN.md section 5 C14",
         note="partial: 'resume == handler returned the response' for whole runs is decided per generated history by the oracle (the "
-             "executor-level statement is proved); interrupts whose upstream-fed input has a default pause early and again (known finding F-f).",
+             "executor-level statement is proved); interrupts whose upstream-fed input has a default pause early and again (known finding F-f); "
+             "an interrupt inside a nested graph cannot be answered (F-n). Every node that may pause - a nested graph holding an interrupt included "
+             "(fix aa302cc) - runs alone in its step: C14_pausing_step_calls_only_the_pausing_node, so the pre-step state returned with a pause "
+             "is everything computed.",
         technique="Coq proof (interrupt executor / async isolation / nested pause path) + pause-resume history oracle",
     ),
     "C15": dict(
@@ -252,7 +260,8 @@ CLAIMED.update({
         design_ref="DESIGN.md section 5 C19",
         note="Inside Validate.v a GraphNode's interface (inputs, outputs, defaults, and the ONE representative type per name) is read from the real "
              "wrapper; BoundaryTypes.v derives the type LISTS from the inner structure but takes the exposed name sets from the wrapper; string "
-             "predicates and issubclass are evaluated in Python; errors raised by node constructors themselves are outside the Graph constructor.",
+             "predicates and issubclass are evaluated in Python; errors raised by node constructors themselves are outside the Graph constructor. "
+             "One GraphNode object re-used across two strict graphs (as it is, then mapped / renamed) is decided by an oracle against a fresh wrapper.",
         technique="Coq proof (decision procedure <-> declarative well-formedness; fixed-point equation of the type judgement) + exhaustive flaw injection and differential correspondence",
     ),
     "C07": dict(
